@@ -22,7 +22,7 @@ for _f in sorted(glob.glob(os.path.join(os.path.dirname(os.path.abspath(__file__
         PROPS[_k] = _v
 
 # properties whose checks have been validated on the unchanged tree and are registered in MANIFEST.json
-CLAIMED = ["C09", "C10", "C12", "C04", "C05", "C06", "C07", "C08", "C11", "C18", "C19", "C31", "C42"]
+CLAIMED = ["C13", "C14", "C15", "C38", "C39", "C40", "C09", "C10", "C12", "C04", "C05", "C06", "C07", "C08", "C11", "C18", "C19", "C31", "C42"]
 
 # properties deliberately not claimed, with the reason (everything else missing from PROPS is "not built yet")
 NOT_APPLICABLE = {}
